@@ -32,6 +32,11 @@ pub fn install(verbose: bool) {
             .map(|l| {
                 let f = l.file();
                 let f = f.strip_prefix("/repo/").unwrap_or(f);
+                // std sources: /rustc/<toolchain hash>/library/... -> library/...
+                let f = match f.strip_prefix("/rustc/") {
+                    Some(rest) => rest.splitn(2, '/').nth(1).unwrap_or(rest),
+                    None => f,
+                };
                 let f = match f.find("/registry/src/") {
                     Some(i) => f[i + 14..].splitn(2, '/').nth(1).unwrap_or(f),
                     None => f,
